@@ -1,4 +1,5 @@
 use crate::common::Ctx;
+pub mod c20;
 pub mod c06;
 pub mod c09;
 pub mod c14;
@@ -32,6 +33,7 @@ pub fn dispatch(ctx: &mut Ctx) -> bool {
         "C14" => c14::run(ctx),
         "C09" => c09::run(ctx),
         "C06" => c06::run(ctx),
+        "C20" => c20::run(ctx),
         _ => return false,
     }
     true
